@@ -399,6 +399,18 @@ func c20Check(c *C20Case, rec *Rec, scen string, events []streamEvent, ret strea
 	}
 	if nbRecv >= 2 {
 		rec.Interesting(JS(c))
+		type ev struct {
+			Seq    uint64 `json:"seq"`
+			Kind   string `json:"kind"`
+			Status string `json:"status,omitempty"`
+			Weight int    `json:"weight"`
+		}
+		var trace []ev
+		for _, e := range events {
+			trace = append(trace, ev{e.seq, e.kind, StatusName(e.res.Status), e.res.Weight})
+		}
+		trace = append(trace, ev{ret.seq, "return", StatusName(ret.res.Status), ret.res.Weight})
+		rec.Sample = map[string]interface{}{"case": c, "recorded_trace": trace, "reference_optimum": opt}
 	}
 }
 
